@@ -21,10 +21,10 @@ package utils
 //@   ensures [zero] fresh(result) && result.Min == 0.0 && result.Max == 0.0
 
 //@ func (*ExpFromZeroFunction).Evaluate
-//@   property C17 C19 C01 C09
+//@   property C17 C19 C01 C09 C07 C20
 //@   ensures [formula] result == e.Multiplier * exp(e.Alpha * value) - e.Multiplier
 //@ func (*LinearFunctionParameters).Evaluate
-//@   property C05 C19 C01 C06 C20
+//@   property C05 C19 C01 C06 C20 C09
 //@   ensures [ok] ok <==> !(f.A == 0.0 && f.B == 0.0)
 //@   ensures [value] (ok ==> result == f.A * value + f.B) && (!ok ==> result == 0.0)
 
@@ -61,7 +61,7 @@ package utils
 
 // the tolerance test of the Choquet tie groups: absolute difference, bound included
 //@ func FloatsAreEqual
-//@   property C03 C02 C01 C09 C11 C18 C04 C07 C15
+//@   property C03 C02 C01 C09 C11 C18 C04 C07 C15 C16 C19 C20
 //@   nopanic
 //@   ensures [absolute_tolerance] result <==> abs(expected - actual) <= epsilon
 
@@ -72,7 +72,7 @@ package utils
 
 // the first occurrence is cut out (the rest keeps its order); nothing changes when it does not occur
 //@ func RemoveSingleStringOccurrence
-//@   property C07 C18 C03
+//@   property C07 C18 C03 C01 C09 C19 C20
 //@   ensures [absent_unchanged] (forall k int :: 0 <= k && k < len(s) ==> old(s[k]) != r) ==> result == s
 //@   ensures [one_shorter] (exists k int :: 0 <= k && k < len(s) && old(s[k]) == r) ==> len(result) == len(s) - 1
 //@   ensures [same_backing_array] len(s) > 0 ==> arr(result) == arr(s)
@@ -121,15 +121,15 @@ package utils
 //@   loop 1 invariant [objects_so_far] forall q string :: q in interfaceSlice ==> exists k int :: 0 <= k && k < i && k < total && interfaceSlice[q] == iterAt(objects, k) && identOf(iterAt(objects, k)) == q
 
 //@ func ToIdentifiable
-//@   property C20 C03
+//@   property C20 C03 C01
 //@   ensures [the_listed_objects_in_order] result != nil && fresh(result) && fresh(*result) && len(*result) == iterLen(objects)
 //@             && forall k int :: 0 <= k && k < len(*result) ==> (*result)[k] == iterAt(objects, k)
 //@   loop 1 invariant [so_far] fresh(interfaceSlice) && len(interfaceSlice) == total && total == iterLen(objects) && 0 <= i && forall k int :: 0 <= k && k < i && k < total ==> interfaceSlice[k] == iterAt(objects, k)
 //@ func ContainsByIdentity
-//@   property C20 C03
+//@   property C20 C03 C01
 //@   ensures [some_object_has_that_name] result <==> exists k int :: 0 <= k && k < len(*slice) && identOf((*slice)[k]) == *value
 //@   loop 1 invariant [none_so_far] forall k int :: 0 <= k && k < iter ==> identOf((*slice)[k]) != *value
 //@ func ContainsAll
-//@   property C20 C03
+//@   property C20 C03 C01
 //@   ensures [every_name_belongs_to_an_object] result <==> forall j int :: 0 <= j && j < len(*values) ==> exists k int :: 0 <= k && k < len(*slice) && identOf((*slice)[k]) == (*values)[j]
 //@   loop 1 invariant [all_so_far] forall j int :: 0 <= j && j < iter ==> exists k int :: 0 <= k && k < len(*slice) && identOf((*slice)[k]) == (*values)[j]
